@@ -745,9 +745,11 @@ func checkUserLevels(senderLevel int64, senderID spec.SenderID, oldPowerLevels, 
 
 // checkPowerLevelEventV2 checks that the changes in notification levels are allowed.
 func checkPowerLevelEventV2(sender string, createEvent PDU, oldPowerLevels, newPowerLevels PowerLevelContent) error {
-	// this function isn't called on privileged creator versions so this is safe,
-	// though we should be considering the case where there is no PL event..?
-	senderLevel := oldPowerLevels.UserLevel(spec.SenderID(sender))
+	return checkNotificationLevels(oldPowerLevels.UserLevel(spec.SenderID(sender)), oldPowerLevels, newPowerLevels)
+}
+
+// checkNotificationLevels checks that the changes in notification levels are allowed for a sender with the given level.
+func checkNotificationLevels(senderLevel int64, oldPowerLevels, newPowerLevels PowerLevelContent) error {
 	type levelPair struct {
 		old    int64
 		new    int64
@@ -812,16 +814,21 @@ func checkPowerLevelEventV2(sender string, createEvent PDU, oldPowerLevels, newP
 
 // checkPowerLevelEventV3 is V2 and checking that the creators don't appear in the PL users map
 func checkPowerLevelEventV3(sender string, createEvent PDU, oldPowerLevels, newPowerLevels PowerLevelContent) error {
-	if err := checkPowerLevelEventV2(sender, createEvent, oldPowerLevels, newPowerLevels); err != nil {
-		return err
-	}
-	// Enforce the creator does not appear in the users map
 	var content CreateContent
 	if err := json.Unmarshal(createEvent.Content(), &content); err != nil {
 		return errorf("checkPowerLevelEventV3 unparseable create event content: %s", err.Error())
 	}
 	creators := []string{string(createEvent.SenderID())}
 	creators = append(creators, content.AdditionalCreators...)
+	// Creators never appear in the users map: their level comes from the create event.
+	senderLevel := oldPowerLevels.UserLevel(spec.SenderID(sender))
+	if slices.Contains(creators, sender) {
+		senderLevel = CreatorPowerLevel
+	}
+	if err := checkNotificationLevels(senderLevel, oldPowerLevels, newPowerLevels); err != nil {
+		return err
+	}
+	// Enforce the creator does not appear in the users map
 	for userID := range newPowerLevels.Users {
 		if slices.Contains(creators, userID) {
 			return &EventValidationError{Code: 400, Message: fmt.Sprintf("new power levels event must not contain creator '%s'", userID)}
